@@ -2014,65 +2014,33 @@ impl ConfigState {
             }
         }
 
-        for ((cluster_id, backend_id), res) in diff_map(
-            self.backends.iter().flat_map(|(cluster_id, v)| {
-                v.iter()
-                    .map(move |backend| ((cluster_id, &backend.backend_id), backend))
-            }),
-            other.backends.iter().flat_map(|(cluster_id, v)| {
-                v.iter()
-                    .map(move |backend| ((cluster_id, &backend.backend_id), backend))
-            }),
-        ) {
-            match res {
-                DiffResult::Added => {
-                    let backend = other
-                        .backends
-                        .get(cluster_id)
-                        .and_then(|v| v.iter().find(|b| &b.backend_id == backend_id))
-                        .unwrap();
-                    v.push(RequestType::AddBackend(backend.clone().to_add_backend()).into());
-                }
-                DiffResult::Removed => {
-                    let backend = self
-                        .backends
-                        .get(cluster_id)
-                        .and_then(|v| v.iter().find(|b| &b.backend_id == backend_id))
-                        .unwrap();
+        // Backends are unique on (cluster, backend_id, address): one backend id
+        // may live at several addresses. Compare them as sets of full values, like
+        // the frontends below; removals go first because AddBackend upserts on
+        // (backend_id, address) and a changed backend is a removal plus an addition.
+        let my_backends: HashSet<&Backend> = self.backends.values().flatten().collect();
+        let their_backends: HashSet<&Backend> = other.backends.values().flatten().collect();
 
-                    v.push(
-                        RequestType::RemoveBackend(RemoveBackend {
-                            cluster_id: backend.cluster_id.clone(),
-                            backend_id: backend.backend_id.clone(),
-                            address: SocketAddress::from(backend.address),
-                        })
-                        .into(),
-                    );
-                }
-                DiffResult::Changed => {
-                    let backend = self
-                        .backends
-                        .get(cluster_id)
-                        .and_then(|v| v.iter().find(|b| &b.backend_id == backend_id))
-                        .unwrap();
+        let mut removed_backends: Vec<&Backend> =
+            my_backends.difference(&their_backends).copied().collect();
+        removed_backends.sort();
+        let mut added_backends: Vec<&Backend> =
+            their_backends.difference(&my_backends).copied().collect();
+        added_backends.sort();
 
-                    v.push(
-                        RequestType::RemoveBackend(RemoveBackend {
-                            cluster_id: backend.cluster_id.clone(),
-                            backend_id: backend.backend_id.clone(),
-                            address: SocketAddress::from(backend.address),
-                        })
-                        .into(),
-                    );
+        for backend in removed_backends {
+            v.push(
+                RequestType::RemoveBackend(RemoveBackend {
+                    cluster_id: backend.cluster_id.clone(),
+                    backend_id: backend.backend_id.clone(),
+                    address: SocketAddress::from(backend.address),
+                })
+                .into(),
+            );
+        }
 
-                    let backend = other
-                        .backends
-                        .get(cluster_id)
-                        .and_then(|v| v.iter().find(|b| &b.backend_id == backend_id))
-                        .unwrap();
-                    v.push(RequestType::AddBackend(backend.clone().to_add_backend()).into());
-                }
-            }
+        for backend in added_backends {
+            v.push(RequestType::AddBackend(backend.clone().to_add_backend()).into());
         }
 
         let mut my_http_fronts: HashSet<(&str, &HttpFrontend)> = HashSet::new();
